@@ -31,24 +31,21 @@ pub fn create(array: InstructionWithStr) -> Result<Instruction, Error> {
     .into())
 }
 
-pub fn exec(var: Variable) -> ExecResult {
-    let return_type = var.as_type();
-    if return_type.matches(&var_type!(() -> (bool, int))) {
-        Ok(Variable::from(INT_SUM)
-            .as_function()
-            .unwrap()
-            .exec_with_args(&[var])?)
-    } else if return_type.matches(&var_type!(() -> (bool, float))) {
-        Ok(Variable::from(FLOAT_SUM)
-            .as_function()
-            .unwrap()
-            .exec_with_args(&[var])?)
+pub fn exec(var: Variable, static_type: Type) -> ExecResult {
+    // the element type decides which sum is meant; an iterator over nothing (`[]~`) has no
+    // element type of its own, so the static type of the operand decides for it
+    let element = match var.as_type().iter_element() {
+        Some(Type::Never) | None => static_type.iter_element().unwrap_or(Type::Never),
+        Some(element) => element,
+    };
+    let sum = if element == Type::Never || Type::Int.matches(&element) {
+        Variable::from(INT_SUM)
+    } else if Type::Float.matches(&element) {
+        Variable::from(FLOAT_SUM)
     } else {
-        Ok(Variable::from(STRING_SUM)
-            .as_function()
-            .unwrap()
-            .exec_with_args(&[var])?)
-    }
+        Variable::from(STRING_SUM)
+    };
+    Ok(sum.as_function().unwrap().exec_with_args(&[var])?)
 }
 
 #[cfg(test)]
